@@ -188,8 +188,7 @@ func newServer(c config) *server {
 	s := &server{cfg: c, rec: &recorder{}, conns: map[string]*wsClient{}}
 	s.api = newAPI(c, s.rec)
 	s.ts = httptest.NewServer(http.HandlerFunc(func(w http.ResponseWriter, r *http.Request) {
-		feat := r.URL.Query().Get("feat") == "1"
-		s.api.ServeGraphQLWS(w, r.WithContext(context.WithValue(r.Context(), featKey, feat)))
+		s.api.ServeGraphQLWS(w, r)
 	}))
 	return s
 }
@@ -205,7 +204,7 @@ func (s *server) close() {
 func (s *server) serveHTTP(e httpEnv, feat bool) (o apiObs) {
 	s.rec.take()
 	r := e.request()
-	r = r.WithContext(context.WithValue(r.Context(), featKey, feat))
+	r.Header.Set("X-Plan", planOf(feat))
 	w := httptest.NewRecorder()
 	func() {
 		defer func() {
@@ -213,7 +212,7 @@ func (s *server) serveHTTP(e httpEnv, feat bool) (o apiObs) {
 				o.Kind = "panic"
 			}
 		}()
-		s.api.ServeGraphQL(w, r)
+		planMiddleware(s.api.ServeGraphQL)(w, r)
 	}()
 	o.Resolvers, o.Hooks = s.rec.take()
 	if o.Kind == "panic" {
@@ -247,6 +246,7 @@ type wsClient struct {
 	// set for the pre-init probe: the silent message there is the no-op that follows the init
 	noCloseWait bool
 	primedFor   int // case number the connection was last primed for
+	inits       []string // plans of the connection_init messages to send ("" = no payload)
 }
 
 // Connections are reused.  So that state leaking from one operation of a connection into the next
@@ -276,16 +276,41 @@ type wsMsg struct {
 	Raw     []byte          `json:"-"` // the frame as received
 }
 
-func dialWS(httpURL, proto string, feat bool, doInit bool) *wsClient {
+func planOf(feat bool) string {
+	if feat {
+		return "beta"
+	}
+	return "free"
+}
+
+// planMiddleware is the application's authentication middleware over HTTP: the principal's plan from a
+// header into the request context, where Config.Features finds it
+func planMiddleware(next http.HandlerFunc) http.HandlerFunc {
+	return func(w http.ResponseWriter, r *http.Request) {
+		next(w, r.WithContext(context.WithValue(r.Context(), featKey, r.Header.Get("X-Plan") == "beta")))
+	}
+}
+
+// initsFor: the connection_init sequence of the connections of a server for a principal: the
+// principal's own plan last; before it, for some configurations, inits of the other plan (a repeated
+// connection_init replaces the context and recomputes the feature set)
+func initsFor(c config, feat bool) []string {
+	switch {
+	case c.Cost && c.Hook:
+		return []string{planOf(feat), planOf(!feat), planOf(feat)}
+	case c.Cost:
+		return []string{planOf(!feat), planOf(feat)}
+	}
+	return []string{planOf(feat)}
+}
+
+func dialWS(httpURL, proto string, inits []string, doInit bool) *wsClient {
 	sub := graphqlws.WebSocketSubprotocol
 	if proto == "tws" {
 		sub = graphqltransportws.WebSocketSubprotocol
 	}
 	d := &websocket.Dialer{HandshakeTimeout: 5 * time.Second, Subprotocols: []string{sub}}
 	u := "ws" + strings.TrimPrefix(httpURL, "http")
-	if feat {
-		u += "/?feat=1"
-	}
 	var conn *websocket.Conn
 	var err error
 	for i := 0; i < 50; i++ {
@@ -298,7 +323,7 @@ func dialWS(httpURL, proto string, feat bool, doInit bool) *wsClient {
 	if err != nil {
 		panic(fmt.Sprintf("cannot dial %s: %v", u, err))
 	}
-	c := &wsClient{conn: conn, proto: proto}
+	c := &wsClient{conn: conn, proto: proto, inits: inits}
 	if doInit {
 		if _, err := c.init(); err != nil {
 			panic(err)
@@ -308,20 +333,27 @@ func dialWS(httpURL, proto string, feat bool, doInit bool) *wsClient {
 }
 
 func (c *wsClient) init() ([]wsMsg, error) {
-	if err := c.conn.WriteMessage(websocket.TextMessage, []byte(`{"type":"connection_init"}`)); err != nil {
-		return nil, err
-	}
 	var before []wsMsg
-	for {
-		m, code, err := c.read(5 * time.Second)
-		if err != nil || code != 0 {
-			return before, fmt.Errorf("no connection_ack (%v, close %d)", err, code)
+	for _, plan := range c.inits {
+		frame := `{"type":"connection_init"}`
+		if plan != "" {
+			frame = `{"type":"connection_init","payload":{"plan":"` + plan + `"}}`
 		}
-		if m.Type == "connection_ack" {
-			return before, nil
+		if err := c.conn.WriteMessage(websocket.TextMessage, []byte(frame)); err != nil {
+			return nil, err
 		}
-		before = append(before, m)
+		for {
+			m, code, err := c.read(5 * time.Second)
+			if err != nil || code != 0 {
+				return before, fmt.Errorf("no connection_ack (%v, close %d)", err, code)
+			}
+			if m.Type == "connection_ack" {
+				break
+			}
+			before = append(before, m)
+		}
 	}
+	return before, nil
 }
 
 // read returns the next message, or a close code, or an error (time-out etc.)
@@ -422,8 +454,8 @@ func (c *wsClient) exchange(raw string, id string, sentinelID string, async bool
 
 // preInitExchange sends the frame on a fresh connection before connection_init, then initialises
 // the connection and delimits with a sentinel as usual.
-func preInitExchange(httpURL, proto string, feat bool, raw, id string) (res wsResult) {
-	c := dialWS(httpURL, proto, feat, false)
+func preInitExchange(httpURL, proto string, inits []string, raw, id string) (res wsResult) {
+	c := dialWS(httpURL, proto, inits, false)
 	defer c.conn.Close()
 	if err := c.conn.WriteMessage(websocket.TextMessage, []byte(raw)); err != nil {
 		panic(err)
@@ -452,7 +484,7 @@ func (s *server) wsConn(proto string, feat bool) *wsClient {
 		if c != nil {
 			c.conn.Close()
 		}
-		c = dialWS(s.ts.URL, proto, feat, true)
+		c = dialWS(s.ts.URL, proto, initsFor(s.cfg, feat), true)
 		s.conns[key] = c
 	}
 	return c
@@ -462,7 +494,7 @@ func (s *server) serveWS(e wsEnv, feat bool, async bool, caseNo int) (o apiObs) 
 	var r wsResult
 	if e.PreInit {
 		s.rec.take()
-		r = preInitExchange(s.ts.URL, e.Proto, feat, e.Raw, e.ID)
+		r = preInitExchange(s.ts.URL, e.Proto, initsFor(s.cfg, feat), e.Raw, e.ID)
 	} else {
 		s.wsConn(e.Proto, feat).prime(caseNo)
 		c := s.wsConn(e.Proto, feat)
@@ -553,14 +585,14 @@ func newDecoderServer() *decoderServer {
 func (d *decoderServer) decodeWS(e wsEnv, caseNo int) sexp.Node {
 	var r wsResult
 	if e.PreInit {
-		r = preInitExchange(d.ts.URL, e.Proto, false, e.Raw, e.ID)
+		r = preInitExchange(d.ts.URL, e.Proto, []string{""}, e.Raw, e.ID)
 	} else {
 		c := d.conns[e.Proto]
 		if c == nil || c.dead {
 			if c != nil {
 				c.conn.Close()
 			}
-			c = dialWS(d.ts.URL, e.Proto, false, true)
+			c = dialWS(d.ts.URL, e.Proto, []string{""}, true)
 			d.conns[e.Proto] = c
 		}
 		c.prime(caseNo)
